@@ -1,4 +1,6 @@
 import TantivyModel.Proofs.Sorted
+import TantivyModel.Proofs.SortedDocView
+import TantivyModel.Proofs.SortedOrds
 /-!
 # C17 — A sorted index keeps every segment in sort order, with unchanged semantics
 
@@ -86,11 +88,40 @@ theorem C17_remap_consistent {α} (s : RawSeg α) (keys : List SKey) (desc : Boo
         (ps.map fun p => { p with doc := (oldToNewOf π).getD p.doc 0 })
       exact this.imp (fun h => by simpa using h)
 
+/-- POSTINGS STAY ATTACHED TO THE RIGHT DOCUMENT. The term view of new document `n` of the sorted
+segment — every term it occurs in, with term frequency and positions — is exactly the term view of
+the document that was inserted as `π n` (`d = (sortOrder keys)[n]`). Together with
+`C17_remap_consistent` (stored fields, norms, fast values and opstamps of `n` are those of `π n`)
+this is "sorting changes nothing else", document by document. Hypothesis: the recorders hold each
+document at most once per term and only ids of the segment. -/
+theorem C17_remap_docview {α} (s : RawSeg α) (keys : List SKey) (desc : Bool) (n d : Nat)
+    (hn : n < keys.length) (hπ : (sortOrder keys desc)[n]? = some d)
+    (hpost : ∀ t ∈ s.terms, (t.2.map (·.doc)).Nodup ∧ ∀ p ∈ t.2, p.doc < keys.length) :
+    docTerms (sortedSegment s keys desc).terms n = docTerms s.terms d := by
+  simp only [docTerms, sortedSegment, List.filterMap_map]
+  apply filterMap_congr_mem
+  intro t ht
+  obtain ⟨hnd, hb⟩ := hpost t ht
+  have h := find_remapped keys desc t.2 n d hn hπ hnd hb
+  have e : ∀ x : Option Posting, x.map (fun p => (t.1, p.tf, p.pos))
+      = (x.map fun p => (p.tf, p.pos)).map fun y => (t.1, y.1, y.2) := by
+    intro x; cases x <;> rfl
+  simp only [Function.comp]
+  rw [e, e, h]
+
 def exRaw : RawSeg Nat :=
   { docs := [100, 101, 102], opstamps := [7, 8, 9],
     terms := [([97], [⟨0, 1, [0]⟩, ⟨2, 2, [1, 4]⟩]), ([98], [⟨1, 1, [3]⟩])] }
 
 example := C17_remap_consistent exRaw [some 5, none, some 3] false rfl rfl
+example : sortOrder [some 5, none, some 3] false = [1, 2, 0] := by
+  simp [sortOrder, List.zipIdx, List.mergeSort, List.MergeSort.Internal.splitInTwo, dirLe, keyLe]
+/-- new doc 1 of the sorted segment is old doc 2 and carries its postings -/
+example : docTerms (sortedSegment exRaw [some 5, none, some 3] false).terms 1 = docTerms exRaw.terms 2 :=
+  C17_remap_docview exRaw [some 5, none, some 3] false 1 2 (by decide)
+    (by simp [sortOrder, List.zipIdx, List.mergeSort, List.MergeSort.Internal.splitInTwo, dirLe, keyLe])
+    (by decide)
+example : docTerms exRaw.terms 2 = [([97], 2, [1, 4])] := by decide
 
 /-- Deletes inside the transaction: a delete with opstamp `t` hits a matching document iff the
 document's opstamp is smaller. Evaluated on the sorted segment with the REMAPPED opstamps it
@@ -151,5 +182,190 @@ example := C17_merge_stack_sorted false
   (by decide)
 /-- a live document without a value blocks stacking (it must move to the front / back) -/
 example : stackOk false [(1, 5), (6, 9)] [[(some 1, 0, 0)], [(none, 1, 0), (some 9, 1, 1)]] = false := by decide
+
+/-! ## the live-null scan, the stack-vs-k-way decision, null placement -/
+
+/-- `segment_has_live_nulls` is exact for `Full` and `Optional` columns: it answers `true` iff
+some LIVE document has no sort value (deleted documents without value do not count; an
+`Optional` column without deletes always has one). -/
+theorem C17_live_nulls_scan_exact (c : SegCol) (hlen : c.keys.length = c.alive.length)
+    (hcard : CardOk c) (hnm : c.card ≠ .multivalued) :
+    hasLiveNulls c.card c.keys c.alive = true ↔ ∃ k ∈ c.liveKeys, k = none :=
+  hasLiveNulls_iff c hlen hcard hnm
+
+example : hasLiveNulls .optional [none, some 3] [false, true] = false
+    ∧ hasLiveNulls .optional [none, some 3] [true, true] = true
+    ∧ hasLiveNulls .optional [none, some 3, none] [false, true, true] = true := by decide
+
+/-- OPEN for multi-valued sort columns (a row with zero values reads `first() = None`, but the
+scan only inspects `Optional` columns): the decision says "no live null" although one exists.
+Index validation asks for a single-valued fast field in its message but cannot enforce it. -/
+theorem C17_multivalued_nulls_counterexample :
+    hasLiveNulls .multivalued [none, some 5] [true, true] = false ∧
+    stackDecision false [⟨.multivalued, [some 7], [true], (7, 7)⟩,
+                         ⟨.multivalued, [none, some 9], [true, true], (9, 9)⟩] = true := by
+  decide
+
+/-- SOUNDNESS OF THE STACK-VS-K-WAY DECISION (numeric sort fields). If
+`is_disjunct_and_sorted_on_sort_property` answers "stack" — ranges disjunct in reader order and
+the live-null scan negative for every reader — then stacking the readers' live documents is in
+sort order, provided every reader is itself sorted, holds at least one live doc (readers
+without live docs are dropped by `IndexMerger::open`), its column is `Full` or `Optional`, and
+the column statistics cover its values. The range and null facts `C17_merge_stack_sorted` assumed
+are now DERIVED from the decision procedure. -/
+theorem C17_stack_decision_sound (desc : Bool) (cs : List SegCol)
+    (hlen : ∀ c ∈ cs, c.keys.length = c.alive.length)
+    (hcard : ∀ c ∈ cs, CardOk c) (hnm : ∀ c ∈ cs, c.card ≠ .multivalued)
+    (hstats : ∀ c ∈ cs, StatsOk c) (hne : ∀ c ∈ cs, c.liveKeys ≠ [])
+    (hsorted : ∀ c ∈ cs, sortedKeys desc c.liveKeys)
+    (hdec : stackDecision desc cs = true) :
+    sortedKeys desc ((cs.map SegCol.liveKeys).flatten) := by
+  simp only [stackDecision, Bool.and_eq_true, Bool.not_eq_true'] at hdec
+  obtain ⟨hdis, hnul⟩ := hdec
+  have hsome : ∀ c ∈ cs, ∀ k ∈ c.liveKeys, ∃ v, k = some v ∧ c.stats.1 ≤ v ∧ v ≤ c.stats.2 := by
+    intro c hc k hk
+    have hf := any_false_forall cs _ hnul c hc
+    cases hkv : k with
+    | none =>
+      exfalso
+      have := (hasLiveNulls_iff c (hlen c hc) (hcard c hc) (hnm c hc)).2 ⟨k, hk, hkv⟩
+      rw [hf] at this; cases this
+    | some v =>
+      exact ⟨v, rfl, hstats c hc k (mem_liveDocs _ _ _ hk) v hkv⟩
+  let sr : List (Stats × Run) := cs.map fun c => (c.stats, c.liveKeys.map fun k => (k, 0, 0))
+  have key := stack_sorted desc sr
+    (by
+      intro p hp
+      obtain ⟨c, hc, rfl⟩ := List.mem_map.1 hp
+      simp only [List.pairwise_map]
+      exact hsorted c hc)
+    (by
+      intro p hp
+      obtain ⟨c, hc, rfl⟩ := List.mem_map.1 hp
+      intro x hx
+      obtain ⟨k, hk, rfl⟩ := List.mem_map.1 hx
+      exact hsome c hc k hk)
+    (by
+      intro p hp
+      obtain ⟨c, hc, rfl⟩ := List.mem_map.1 hp
+      obtain ⟨k, hk⟩ := List.exists_mem_of_ne_nil _ (hne c hc)
+      obtain ⟨v, _, h1, h2⟩ := hsome c hc k hk
+      exact Nat.le_trans h1 h2)
+    (by
+      have e0 : sr.map (·.1) = cs.map (·.stats) := by simp only [sr, List.map_map]; rfl
+      rw [e0]; exact hdis)
+  have e : (sr.map (·.2)).flatten = ((cs.map SegCol.liveKeys).flatten).map fun k => (k, 0, 0) := by
+    simp only [sr, List.map_map, List.map_flatten]
+    rfl
+  rw [e, List.pairwise_map] at key
+  exact key
+
+example : stackDecision false [⟨.full, [some 1, some 5], [true, true], (1, 5)⟩,
+                               ⟨.optional, [none, some 5, some 9], [false, true, true], (5, 9)⟩] = true := by
+  decide
+example := C17_stack_decision_sound false
+  [⟨.full, [some 1, some 5], [true, true], (1, 5)⟩,
+   ⟨.optional, [none, some 5, some 9], [false, true, true], (5, 9)⟩]
+  (by decide) (by intro c hc; simp at hc; rcases hc with rfl | rfl <;> simp [CardOk])
+  (by decide)
+  (by intro c hc; simp at hc; rcases hc with rfl | rfl <;> simp [StatsOk] <;> omega)
+  (by decide)
+  (by intro c hc; simp at hc; rcases hc with rfl | rfl <;> simp [sortedKeys, SegCol.liveKeys, Merge.liveDocs, dirLe, keyLe])
+  (by decide)
+
+/-- The same soundness statement about the decision the DRIVER evaluates (`stackDecisionG`),
+which is `stackDecision` only while the guards extracted from `merger.rs` hold
+(`segment_has_live_nulls`: non-Optional ⇒ false, no deletes ⇒ true, else a scan of the ALIVE docs
+for `first() == None` and nothing else; `is_disjunct_and_sorted_on_sort_property`: window test
+`max ≤ min` / `min ≥ max`, then no reader with live nulls). An edit of either function flips a
+guard: this proof stops compiling and the driver answers `?` instead of a decision. -/
+theorem C17_stack_decision_sound_extracted (desc : Bool) (cs : List SegCol)
+    (hlen : ∀ c ∈ cs, c.keys.length = c.alive.length)
+    (hcard : ∀ c ∈ cs, CardOk c) (hnm : ∀ c ∈ cs, c.card ≠ .multivalued)
+    (hstats : ∀ c ∈ cs, StatsOk c) (hne : ∀ c ∈ cs, c.liveKeys ≠ [])
+    (hsorted : ∀ c ∈ cs, sortedKeys desc c.liveKeys)
+    (hdec : stackDecisionG desc cs = some true) :
+    sortedKeys desc ((cs.map SegCol.liveKeys).flatten) := by
+  have hg : Gen.LIVE_NULLS_SCAN_SHAPE = 1 ∧ Gen.STACK_DECISION_SHAPE = 1 := by decide
+  simp only [stackDecisionG, hg, and_self, if_true, Option.some.injEq] at hdec
+  exact C17_stack_decision_sound desc cs hlen hcard hnm hstats hne hsorted hdec
+
+example : stackDecisionG false [⟨.full, [some 1, some 5], [true, true], (1, 5)⟩,
+    ⟨.optional, [none, some 5, some 9], [false, true, true], (5, 9)⟩] = some true := by decide
+
+/-- EVERY SEGMENT OF A SORTED INDEX IS SORTED, for every history: whatever sequence of flushes,
+deletes and merges (k-way or stacked, of fresh or already merged segments) produced a segment,
+its sort keys in doc-id order are sorted in the configured direction — hence (by
+`C17_null_placement`) documents without value come first ascending and last descending. Induction
+over `ReachableKeys`; the stacking case rests on the extracted decision procedure. -/
+theorem C17_every_segment_sorted (desc : Bool) (ks : List SKey) (h : ReachableKeys desc ks) :
+    sortedKeys desc ks := by
+  induction h with
+  | fresh keys => exact (C17_sort_order_perm_sorted keys desc).2.1
+  | live ks alive _ ih => exact ih.sublist (liveDocs_sublist ks alive)
+  | kway runs _ ih => exact (C17_merge_kway_sorted desc runs ih).1
+  | stack cs _ hlen hcard hnm hstats hne hdec ih =>
+    exact C17_stack_decision_sound_extracted desc cs hlen hcard hnm hstats hne
+      (fun c hc => (ih c hc).sublist (liveDocs_sublist c.keys c.alive)) hdec
+
+/-- a merged segment (k-way) of a fresh segment with a deleted doc and another fresh segment -/
+example : ReachableKeys false ((kmerge false
+    [ (Merge.liveDocs ((sortOrder [some 5, none, some 3] false).filterMap ([some 5, none, some 3][·]?)) [true, false, true]).map (fun k => (k, 0, 0)),
+      ((sortOrder [some 4] false).filterMap ([some 4][·]?)).map (fun k => (k, 1, 0)) ]).map (·.1)) := by
+  apply ReachableKeys.kway
+  intro r hr
+  simp only [List.mem_cons, List.mem_nil_iff, or_false] at hr
+  rcases hr with rfl | rfl
+  · have e : ((fun x : SKey × Nat × Nat => x.1) ∘ fun k : SKey => (k, 0, 0)) = id := rfl
+    rw [List.map_map, e, List.map_id]
+    exact ReachableKeys.live _ _ (ReachableKeys.fresh _)
+  · have e : ((fun x : SKey × Nat × Nat => x.1) ∘ fun k : SKey => (k, 1, 0)) = id := rfl
+    rw [List.map_map, e, List.map_id]
+    exact ReachableKeys.fresh _
+
+/-- STR / BYTES SORT FIELDS: merged term ordinals order exactly like the term bytes. For terms
+`k1`, `k2` of any of the segments' dictionaries, `remapped_term_ord` compares as the byte strings
+do, and equal ordinals mean equal terms — so the k-way merge on merged ordinals is the k-way merge
+on the terms themselves, and the model's use of byte-order ranks as keys for str/bytes sort fields
+loses nothing. -/
+theorem C17_merged_ordinals_order (dicts : List (List Merge.Key)) (k1 k2 : Merge.Key)
+    (h1 : ∃ d ∈ dicts, k1 ∈ d) (h2 : ∃ d ∈ dicts, k2 ∈ d) :
+    (mergedOrd dicts k1 < mergedOrd dicts k2 ↔ Merge.keyLt k1 k2 = true) ∧
+    (mergedOrd dicts k1 = mergedOrd dicts k2 ↔ k1 = k2) := by
+  obtain ⟨hs, hm⟩ := Merge.keyUnion_props dicts
+  have m1 : k1 ∈ mergedDict dicts := (hm k1).2 h1
+  have m2 : k2 ∈ mergedDict dicts := (hm k2).2 h2
+  refine ⟨idxOf_lt_iff_of_sorted _ hs k1 k2 m1 m2, ?_⟩
+  constructor
+  · exact idxOf_inj_of_mem _ k1 k2 m1 m2
+  · intro h; rw [h]
+
+example : mergedDict [[[98], [100]], [[97], [98]]] = [[97], [98], [100]] := by decide
+example : mergedOrd [[[98], [100]], [[97], [98]]] [100] = 2 ∧ mergedOrd [[[98], [100]], [[97], [98]]] [97] = 0 := by
+  decide
+
+/-- NULL PLACEMENT as a property of every sorted key sequence (hence of every fresh segment by
+`C17_sort_order_perm_sorted`, every k-way merged segment by `C17_merge_kway_sorted` and every
+stacked segment by `C17_stack_decision_sound`): ascending, a document without value is never
+preceded by one with a value (the missing values form a prefix); descending, it is never
+followed by one (they form a suffix). -/
+theorem C17_null_placement (ks : List SKey) :
+    (sortedKeys false ks → ∀ i j (hij : i < j) (hj : j < ks.length), ks[j] = none → ks[i]'(by omega) = none) ∧
+    (sortedKeys true ks → ∀ i j (hij : i < j) (hj : j < ks.length), ks[i]'(by omega) = none → ks[j] = none) :=
+  ⟨fun h i j hij hj => sorted_nulls_asc ks h i j hij hj,
+   fun h i j hij hj => sorted_nulls_desc ks h i j hij hj⟩
+
+/-- null placement of the k-way merged order -/
+theorem C17_merge_null_placement (desc : Bool) (runs : List Run)
+    (h : ∀ r ∈ runs, sortedKeys desc (r.map (·.1))) (i j : Nat) (hij : i < j)
+    (hj : j < ((kmerge desc runs).map (·.1)).length) :
+    (desc = false → ((kmerge desc runs).map (·.1))[j] = none → ((kmerge desc runs).map (·.1))[i]'(by omega) = none) ∧
+    (desc = true → ((kmerge desc runs).map (·.1))[i]'(by omega) = none → ((kmerge desc runs).map (·.1))[j] = none) := by
+  have hs := (C17_merge_kway_sorted desc runs h).1
+  constructor
+  · intro hd; subst hd
+    exact (C17_null_placement _).1 hs i j hij hj
+  · intro hd; subst hd
+    exact (C17_null_placement _).2 hs i j hij hj
 
 end TantivyModel.C17
